@@ -11,8 +11,8 @@ func main() {
 	livecheck.Main(livecheck.Plan{
 		ID:     "C06",
 		Oracle: livecheck.Oracle{Sequential: true},
-		Quick:  []string{"mg-safe", "mg-unsafe", "mg-unsafe-cf", "mg-unsafe-cf-nomem", "mg-empty-ucf-nomem", "mg-partial-ucf-nomem", "mg-partial-ucf-nomem-f1", "mg-partial-unsafe", "mg-late", "mg-late+rev", "mg-safe+rev", "mg-late-unsafe", "mg-late-ucf-nomem", "mg-empty", "mg-empty-ucf", "mg-nap"}, QuickBound: 1, QuickDeep: []string{"mg-unsafe-cf", "mg-partial-ucf-nomem-f1", "mg-late-ucf-nomem", "mg-empty-ucf"}, QuickBudget: 80 * time.Second,
-		Thorough: []string{"mg-safe", "mg-unsafe", "mg-unsafe-cf", "mg-unsafe-cf-nomem", "mg-empty-ucf-nomem", "mg-partial-ucf-nomem", "mg-partial-ucf-nomem-f1", "mg-partial-unsafe", "mg-late", "mg-late+rev", "mg-safe+rev", "mg-late-unsafe", "mg-late-ucf-nomem", "mg-empty", "mg-empty-ucf", "mg-nap"}, ThorBound: 2, ThorBudget: 20 * time.Minute,
+		Quick:  []string{"mg-safe", "mg-unsafe", "mg-unsafe-cf", "mg-unsafe-cf-nomem", "mg-empty-ucf-nomem", "mg-partial-ucf-nomem", "mg-partial-ucf-nomem-f1", "mg-partial-unsafe", "mg-late", "mg-late+rev", "mg-safe+rev", "mg-late-unsafe", "mg-late-ucf-nomem", "mg-empty", "mg-empty-ucf", "mg-nap", "mg-late+rr"}, QuickBound: 1, QuickDeep: []string{"mg-unsafe-cf", "mg-partial-ucf-nomem-f1", "mg-late-ucf-nomem", "mg-empty-ucf"}, QuickBudget: 80 * time.Second,
+		Thorough: []string{"mg-safe", "mg-unsafe", "mg-unsafe-cf", "mg-unsafe-cf-nomem", "mg-empty-ucf-nomem", "mg-partial-ucf-nomem", "mg-partial-ucf-nomem-f1", "mg-partial-unsafe", "mg-late", "mg-late+rev", "mg-safe+rev", "mg-late-unsafe", "mg-late-ucf-nomem", "mg-empty", "mg-empty-ucf", "mg-nap", "mg-late+rr", "mg-safe+rr", "mg-unsafe+rr", "mg-empty+rr", "mg-partial-unsafe+rr"}, ThorBound: 2, ThorBudget: 20 * time.Minute,
 		Rule:        "every schedule within the deviation bound of 6 scenarios: one client whose updates/deletes hit documents living in segments under merge (merge plan scaled down so that any two small file segments merge; unsafe + clients-first variants pile up in-memory segments for in-memory merges; one variant deletes every document of the merge set before the merge is introduced; one runs with the persister nap timer); after EVERY batch a fresh reader is compared with the sequential model (count, match-all, stored fields, lookup by id), again at quiescence and after close + reopen; distinct_nontrivial = distinct (storage trace, observations) outcomes; the flag batch_inside_persist_or_merge_window shows that batches really landed between the load of a merged/persisted segment and its snapshot",
 		Explanation: "stateless exploration of the real writer on the crashfs device; single client, so the expected content after each batch is unique",
 		Assumptions: []string{"schedules beyond the deviation bound are not explored"},
